@@ -22,10 +22,12 @@ import (
 // element, leaf index for leaf index and proof hash for proof hash, and its
 // proofs must verify against the state.
 type shadow struct {
-	b   *harness.B
-	c   *chaingen.Chain
-	S   *chaingen.Store
-	ctx string // network family / scenario, for witnesses
+	usedAU consensus.ApplyUpdate // every update is also read into these, which hold the previous one
+	usedRU consensus.RevertUpdate
+	b      *harness.B
+	c      *chaingen.Chain
+	S      *chaingen.Store
+	ctx    string // network family / scenario, for witnesses
 	// resync: the shadow could not follow the last update (reported); copy the chain's store
 	resync bool
 	// lastJSON is the JSON form of the update being judged (for witnesses)
@@ -84,6 +86,19 @@ func (s *shadow) roundtripApply(au consensus.ApplyUpdate, w updWitness) (out con
 	if !b.Guard("C20", func() any { return w }, func() { js2, err = json.Marshal(out) }) && (err != nil || !bytes.Equal(js, js2)) {
 		b.Violate("C20/update-roundtrip/ApplyUpdate/rejson-differs", fmt.Sprintf("json(parse(json(au))) != json(au) (err=%v)", err), w)
 	}
+	// a client that reads every stored update into one variable: the variable still holds the previous block's update
+	var js3 []byte
+	if !b.Guard("C20", func() any { return w }, func() {
+		if err = json.Unmarshal(js, &s.usedAU); err == nil {
+			js3, err = json.Marshal(s.usedAU)
+		}
+	}) {
+		b.Count("updates_read_into_a_used_value", 1)
+		if err != nil || !bytes.Equal(js, js3) {
+			b.Violate("C20/update-roundtrip/ApplyUpdate/read-into-a-used-value/rejson-differs", fmt.Sprintf("the JSON of an ApplyUpdate read into a variable that held the previous block's update reads back differently (err=%v)", err), w)
+			s.usedAU = consensus.ApplyUpdate{}
+		}
+	}
 	return out, js, true
 }
 
@@ -112,6 +127,18 @@ func (s *shadow) roundtripRevert(ru consensus.RevertUpdate, w updWitness) (out c
 	var js2 []byte
 	if !b.Guard("C20", func() any { return w }, func() { js2, err = json.Marshal(out) }) && (err != nil || !bytes.Equal(js, js2)) {
 		b.Violate("C20/update-roundtrip/RevertUpdate/rejson-differs", fmt.Sprintf("json(parse(json(ru))) != json(ru) (err=%v)", err), w)
+	}
+	var js3 []byte
+	if !b.Guard("C20", func() any { return w }, func() {
+		if err = json.Unmarshal(js, &s.usedRU); err == nil {
+			js3, err = json.Marshal(s.usedRU)
+		}
+	}) {
+		b.Count("updates_read_into_a_used_value", 1)
+		if err != nil || !bytes.Equal(js, js3) {
+			b.Violate("C20/update-roundtrip/RevertUpdate/read-into-a-used-value/rejson-differs", fmt.Sprintf("the JSON of a RevertUpdate read into a variable that held an earlier update reads back differently (err=%v)", err), w)
+			s.usedRU = consensus.RevertUpdate{}
+		}
 	}
 	return out, js, true
 }
